@@ -1275,6 +1275,7 @@ int main(int argc, char** argv)
       fprintf(out, "{\"e\":\"LeakCheck\",\"bytes\":%zu}\n", bytes);
     }
     else if (!strcmp(op, "rmfile")) { NEED(1); unlink(tok[1]); }
+    else if (!strcmp(op, "sleepms")) { NEED(1); struct timespec ts = {atol(tok[1]) / 1000, (atol(tok[1]) % 1000) * 1000000L}; nanosleep(&ts, NULL); }
     else if (!strcmp(op, "reset")) { fputs("{\"e\":\"Reset\"}\n", out); }
     else if (!strcmp(op, "note")) { NEED(1); fputs("{\"e\":\"Note\",\"text\":", out); jcstr(tok[1]); fputs("}\n", out); fflush(out); }
     else if (!strcmp(op, "allocs")) { fprintf(out, "{\"e\":\"Allocs\",\"count\":%ld,\"injected\":%ld}\n", yv_alloc_count, yv_faults_injected); }
